@@ -183,7 +183,12 @@ def detect_encoding(
         # document behind a byte-order mark never gets here).
         if content_type.strip().lower() == 'text/xml':
             content_type = None
-        return content_type, match.group(2)
+        # A value that names no codec (an interpolation such as
+        # ``${charset}``) cannot have encoded the document.
+        charset = match.group(2)
+        if not _has_encoding(charset):
+            charset = default_encoding
+        return content_type, charset
 
     return None, default_encoding
 
